@@ -561,6 +561,11 @@ def lowerArgs : SrcArgs → Option (List Expr)
     | _, _ => none
 end
 
+/-- The variant of seeded defect C18_7: a Contraction's lowered terms are emitted once each
+    (`list(dict.fromkeys(terms))`) before the `Binary` chain is built.  The real code keeps the term LIST
+    positionally (a multiset of operands), see `lower`. -/
+def lowerContrDedup (op : String) (es : List Expr) : Option Expr := reduce1 (Expr.binary op) es.eraseDups
+
 /-- The peephole of seeded defect C18_3 on an already lowered term: a unary op applied directly to the
     op registered as its `.inv` is dropped together with it. -/
 def cancelInv (inv : String → Option String) : Expr → Expr
